@@ -3,6 +3,7 @@ import core
 from gen_util import *
 PID = "C20"
 DRIVER = "drv_heap"
+MATRIX_QUICK = [core.CONFIG_BZERO]   # both zeroing back-ends on every run
 MATRIX = core.MATRIX_ZEROING     # thorough tier: -O0/-O2/-O3, clang, explicit_bzero on/off, mlock on/off
 DRIVER_FLAGS = ("-w",)
 RULE = ("for every throwing API (hash x3 forms, get_hmac, HmacContext, pbkdf2 vector / locked, pepper, hkdf extract / expand / key-iv, HOTP, TOTP validation, time tokens x5, encoders x3, to_hex, "
@@ -49,6 +50,8 @@ def gen(rng, tier):
         add("ss_rotate_revealed", ["x", b(n_old), "-"], "len=%d" % n_old); add("ss_set_revealed", ["x", b(n_old), b(21)], "len=%d" % n_old)
         add("ss_rotate", ["x", b(n_old), "-"], "len=%d" % n_old); add("ss_rotate_twice", ["x", b(n_old), "-"], "len=%d" % n_old); add("ss_reveal", ["x", b(n_old), "-"], "len=%d" % n_old)
         add("ss_rotate_move_rotate", ["x", b(n_old), "-"], "len=%d" % n_old)       # interrupted rotation, the object is moved, rotated again
+    for t in HASHES:
+        add("hmacctx_reuse", [t, b(BS[t] + 9), b(30)], "%s" % t)
     # the first secret_string operation of a fresh process (the process-wide key is created inside it), one child process per failing allocation
     add("ss_firstuse", ["x", b(40)], "fresh-process")
     return cases
